@@ -137,6 +137,48 @@ def nested_cycle_cases(failures):
         order = [n.name for n in main]
         if order.index("late") > order.index("ctl"):
             failures.append(f"deep capture at depth {depth}: producer 'late' still after the control-flow node that uses it: {order}")
+    # sort, edit, sort again: the second sort must see the graph as it is NOW (no stale per-node information)
+    for nested in (False, True):
+        for edit in ("new-producer", "rewire", "swap-inputs"):
+            count += 1
+            x = ir.Value(name="x")
+            w = ir.Value(name="w")                      # consumed, no producer yet
+            a = op("a", [x])
+            b = op("b", [x])
+            if nested:
+                inner = op("inner", [w, a.outputs[0]])
+                body = ir.Graph([], [inner.outputs[0]], nodes=[inner], name="body")
+                c = op("c", [x], attrs=[ir.AttrGraph("body", body)])
+                consumer = inner
+            else:
+                c = op("c", [w, a.outputs[0]])
+                consumer = c
+            main = ir.Graph([x], [c.outputs[0]], nodes=[a, b, c], name="main")
+            try:
+                main.sort()
+                list(c.predecessors()), list(consumer.predecessors())
+                if edit == "new-producer":
+                    p = ir.Node("", "Op", inputs=[b.outputs[0]], outputs=[w], name="p")     # w now has a producer, placed last
+                    main.append(p)
+                    must = [("p", "c"), ("b", "p")]
+                elif edit == "rewire":
+                    late = op("late", [x])
+                    main.append(late)
+                    consumer.replace_input_with(1, late.outputs[0])
+                    must = [("late", "c")]
+                else:
+                    late = op("late", [b.outputs[0]])
+                    main.append(late)
+                    consumer.replace_input_with(0, late.outputs[0])
+                    must = [("late", "c"), ("b", "late")]
+                main.sort()
+            except Exception as e:  # noqa: BLE001
+                failures.append(f"sort/edit/sort ({edit}, nested={nested}): raised {e!r}"[:200])
+                continue
+            order = [n.name for n in main]
+            for first, second in must:
+                if order.index(first) > order.index(second):
+                    failures.append(f"sort/edit/sort ({edit}, nested={nested}): after the second sort '{first}' is not before '{second}': {order}")
     return count
 
 
